@@ -219,6 +219,7 @@ func cmdRegExplore(args []string) {
 	sample := fs.Int("sample", 1, "record the transitions of every k-th state only (all states are still explored)")
 	workers := fs.Int("workers", 16, "")
 	settle := fs.Int("settle", 0, "settle episodes (C20) from every recorded state in which the tables may settle, each with another sync order")
+	settleEvery := fs.Int("settle-every", 1, "settle episodes from every k-th state only")
 	fs.Parse(args)
 	tw := newTraceWriter(*out)
 	o := &potsOut{w: tw}
@@ -265,7 +266,7 @@ func cmdRegExplore(args []string) {
 		if len(regulatorSnapshot(probe).Tables) >= 2 {
 			reps = *repeat
 		}
-		if idx%*sample == 0 && probe.status >= 1 && len(probe.pend) == 0 && len(probe.liveTables()) > 0 {
+		if idx%*sample == 0 && idx%*settleEvery == 0 && probe.status >= 1 && len(probe.pend) == 0 && len(probe.liveTables()) > 0 {
 			for k := 0; k < *settle; k++ {
 				e := rebuild(n)
 				if e == nil {
